@@ -27,27 +27,47 @@ def _sorted_list(x):
     return x
 
 
-def ask_everything(srv, root, uni, cur):
-    """cur: slot -> Rendered of the text the server has for that (opened) document"""
+def ask_everything(srv, root, uni, cur, reverse=False):
+    """cur: slot -> Rendered of the text the server has for that (opened) document.
+    reverse: the same requests in the opposite order (documents, positions, request kinds): an answer must not depend on
+    which request was answered before it"""
     out = {}
-    for slot in sorted(cur):
+    order = (lambda xs: list(reversed(list(xs)))) if reverse else (lambda xs: list(xs))
+
+    def doc_level(slot, p, r):
+        for kind in order(["symbols", "lens", "inlay", "diag"]):
+            if kind == "symbols":
+                out[slot + ":symbols"] = _sorted_list(_norm(srv.doc_request("textDocument/documentSymbol", p), root))
+            elif kind == "lens":
+                out[slot + ":lens"] = _sorted_list(_norm(srv.doc_request("textDocument/codeLens", p), root))
+            elif kind == "inlay":
+                nl = r.text.count("\n") + 1
+                out[slot + ":inlay"] = _sorted_list(_norm(srv.doc_request("textDocument/inlayHint", p, {
+                    "range": {"start": {"line": 0, "character": 0}, "end": {"line": nl, "character": 0}}}), root))
+            else:
+                out[slot + ":diag"] = _sorted_list(_norm((srv.diagnostics.get(lsp.path_to_uri(p)) or [[]])[-1], root))
+
+    def pos_level(slot, p, r):
+        for key, (ln, cs, ce) in order(sorted(r.use_pos.items())):
+            tag = "%s:%s" % (slot, "/".join(map(str, key)))
+            for kind in order(["def", "refs", "hover", "completion"]):
+                if kind == "def":
+                    out[tag + ":def"] = _norm(srv.pos_request("textDocument/definition", p, ln - 1, cs), root)
+                elif kind == "refs":
+                    out[tag + ":refs"] = _sorted_list(_norm(srv.pos_request("textDocument/references", p, ln - 1, cs,
+                                                                            {"context": {"includeDeclaration": True}}), root))
+                elif kind == "hover":
+                    out[tag + ":hover"] = _norm(srv.pos_request("textDocument/hover", p, ln - 1, cs), root)
+                else:
+                    comp = srv.pos_request("textDocument/completion", p, ln - 1, cs)
+                    items = comp.get("items") if isinstance(comp, dict) else comp
+                    out[tag + ":completion"] = sorted((i.get("label"), i.get("detail")) for i in (items or [])) if isinstance(items, list) else _norm(comp, root)
+
+    for slot in order(sorted(cur)):
         p = uni.paths[slot]
         r = cur[slot]
-        out[slot + ":symbols"] = _sorted_list(_norm(srv.doc_request("textDocument/documentSymbol", p), root))
-        out[slot + ":lens"] = _sorted_list(_norm(srv.doc_request("textDocument/codeLens", p), root))
-        nl = r.text.count("\n") + 1
-        out[slot + ":inlay"] = _sorted_list(_norm(srv.doc_request("textDocument/inlayHint", p, {
-            "range": {"start": {"line": 0, "character": 0}, "end": {"line": nl, "character": 0}}}), root))
-        out[slot + ":diag"] = _sorted_list(_norm((srv.diagnostics.get(lsp.path_to_uri(p)) or [[]])[-1], root))
-        for key, (ln, cs, ce) in sorted(r.use_pos.items()):
-            tag = "%s:%s" % (slot, "/".join(map(str, key)))
-            out[tag + ":def"] = _norm(srv.pos_request("textDocument/definition", p, ln - 1, cs), root)
-            out[tag + ":refs"] = _sorted_list(_norm(srv.pos_request("textDocument/references", p, ln - 1, cs,
-                                                                    {"context": {"includeDeclaration": True}}), root))
-            out[tag + ":hover"] = _norm(srv.pos_request("textDocument/hover", p, ln - 1, cs), root)
-            comp = srv.pos_request("textDocument/completion", p, ln - 1, cs)
-            items = comp.get("items") if isinstance(comp, dict) else comp
-            out[tag + ":completion"] = sorted((i.get("label"), i.get("detail")) for i in (items or [])) if isinstance(items, list) else _norm(comp, root)
+        for part in order([doc_level, pos_level]):
+            part(slot, p, r)
     out["ws:symbols"] = _sorted_list(_norm(srv.request("workspace/symbol", {"query": ""}), root))
     return out
 
@@ -90,7 +110,7 @@ def c06_sessions(V, tier):
 
     PAD = "\n" + "# padding: a large generated module\n" * 9000       # ~ 330 KB of comments after the last statement
 
-    def run_one(root, script, final, warm=False, burst=False):
+    def run_one(root, script, final, warm=False, burst=False, reopen=False, reverse=False):
         """script: list of (slot, version); final: slot -> version; warm: every handler is asked about every opened document
         after EVERY notification (answers discarded), so that whatever a handler keeps between requests is populated"""
         uni = H.mk_universe(root)
@@ -117,6 +137,13 @@ def c06_sessions(V, tier):
                 now[slot] = vt.r[(slot, v)]
                 if warm:
                     ask_everything(srv, root, uni, now)
+                if reopen and i + 1 < len(script) and script[i + 1][0] != slot:
+                    # the document is closed whenever the next notification is for another one; coming back to it is a didOpen
+                    # (saved first: closing a document whose buffer differs from disk is outside C06 / C07)
+                    with open(uni.paths[slot], "w") as fh:
+                        fh.write(text)
+                    srv.did_close(uni.paths[slot])
+                    del ver[slot]
             if burst:
                 # the notifications went out back to back; wait until one publication per notification arrived, then a beat more
                 import time
@@ -129,7 +156,7 @@ def c06_sessions(V, tier):
                 srv.request("workspace/symbol", {"query": "zz"})
                 time.sleep(0.4)
             cur = {s: vt.r[(s, v)] for s, v in final.items()}
-            return ask_everything(srv, root, uni, cur)
+            return ask_everything(srv, root, uni, cur, reverse=reverse)
         finally:
             srv.close()
             shutil.rmtree(root, ignore_errors=True)
@@ -141,8 +168,8 @@ def c06_sessions(V, tier):
         for f, v in hist:
             final[f] = v
         try:
-            long_lived = run_one(os.path.join(base, "L%d" % n), hist, final, warm=(n % 4 in (0, 2)), burst=(n % 4 == 1))
-            fresh = run_one(os.path.join(base, "F%d" % n), [(f, final[f]) for f in case["okOrder"] if f in final], final)
+            long_lived = run_one(os.path.join(base, "L%d" % n), hist, final, warm=(n % 4 in (0, 2)), burst=(n % 4 == 1), reopen=(n % 4 in (2, 3)))
+            fresh = run_one(os.path.join(base, "F%d" % n), [(f, final[f]) for f in case["okOrder"] if f in final], final, reverse=True)
         except (lsp.ServerDied, lsp.Timeout) as e:
             return {"error": str(e)}
         return {"long": long_lived, "fresh": fresh}
